@@ -87,7 +87,7 @@ class Equip(secsgem.gem.GemEquipmentHandler):
         self.ecv[ec.ecid] = value
 
 
-def make_pair(host_active: bool, seg, delays):
+def make_pair(host_active: bool, seg, delays, device_id=0):
     mk = secsgem.hsms.HsmsConnectMode
 
     class HS(secsgem.hsms.HsmsSettings):
@@ -101,9 +101,9 @@ def make_pair(host_active: bool, seg, delays):
             return self.conn
 
     hs = HS(connect_mode=mk.ACTIVE if host_active else mk.PASSIVE, device_type=secsgem.common.DeviceType.HOST,
-            t3=1, t6=1, establish_communication_timeout=1)
+            t3=1, t6=1, establish_communication_timeout=1, device_id=device_id)
     es = ES(connect_mode=mk.PASSIVE if host_active else mk.ACTIVE, device_type=secsgem.common.DeviceType.EQUIPMENT,
-            t3=1, t6=1, establish_communication_timeout=1)
+            t3=1, t6=1, establish_communication_timeout=1, device_id=device_id)
     host = secsgem.gem.GemHostHandler(hs)
     eq = Equip(es)
     hc, ec = host.protocol._connection, eq.protocol._connection
@@ -438,11 +438,12 @@ class ClearHook(threading.Event):
 
 
 def scenario(res, rng, drv_lines, host_active, eq_first, seg, delays, n_calls, cycles, scen, slow_enable=False):
-    host, eq, hc, ec = make_pair(host_active, seg, delays)
+    device_id = rng.choice([0, 1, 300, 32767])
+    host, eq, hc, ec = make_pair(host_active, seg, delays, device_id)
     tr = Trace(host, eq)
     stop = threading.Event()
     threading.Thread(target=pairlib.retry_loop, args=(hc, ec, stop), daemon=True).start()
-    case = {"scenario": scen, "host_active": host_active, "equipment_first": eq_first, "seg": seg[:6], "delays": delays[:6]}
+    case = {"scenario": scen, "host_active": host_active, "equipment_first": eq_first, "seg": seg[:6], "delays": delays[:6], "device_id": device_id}
     try:
         first, second = (eq, host) if eq_first else (host, eq)
         if slow_enable:
